@@ -12,7 +12,7 @@ from nix_manipulator.expressions.binding import Binding
 from nix_manipulator.expressions.expression import NixExpression
 from nix_manipulator.expressions.function.call import FunctionCall
 from nix_manipulator.expressions.function.definition import FunctionDefinition
-from nix_manipulator.expressions.identifier import Identifier
+from nix_manipulator.expressions.identifier import Identifier, _resolve_identifier
 from nix_manipulator.expressions.layout import empty_line, linebreak
 from nix_manipulator.expressions.let import LetExpression
 from nix_manipulator.expressions.parenthesis import Parenthesis
@@ -30,7 +30,6 @@ from nix_manipulator.expressions.trivia import (
 from nix_manipulator.expressions.with_statement import WithStatement
 from nix_manipulator.mapping import tree_sitter_node_to_expression
 from nix_manipulator.resolution import (
-    attach_resolution_context,
     scopes_for_owner,
     set_resolution_context,
 )
@@ -197,8 +196,12 @@ class NixSourceCode:
                 raise ValueError("Top-level expression must be an attribute set")
             visited.add(id(target))
 
+            # The chain visible inside *target*: what encloses it plus its own
+            # let layers (and `with` environment / call parameters).
             if scopes is None:
                 scopes = scopes_for_owner(target)
+            else:
+                scopes = scopes_for_owner(target, enclosing=scopes)
 
             def resolve_nested(expr, *, scopes=scopes):
                 return resolve_from_expr(expr, scopes=scopes)
@@ -232,15 +235,14 @@ class NixSourceCode:
                             "Top-level expression must be an attribute set"
                         ) from exc
                 case WithStatement():
-                    body_scopes = scopes_for_owner(target) or scopes
-                    attach_resolution_context(target.body, owner=target)
-                    return resolve_from_expr(target.body, scopes=body_scopes)
+                    set_resolution_context(target.body, scopes)
+                    return resolve_from_expr(target.body, scopes=scopes)
                 case Identifier():
-                    identifier_scopes = scopes or scopes_for_owner(target)
-                    if identifier_scopes:
-                        set_resolution_context(target, identifier_scopes)
-                    resolved = target.value
-                    return resolve_nested(resolved, scopes=identifier_scopes)
+                    # Resolve without storing the chain on the identifier: it
+                    # contains the identifier's own let layers, which a later
+                    # scopes_for_owner() call would add a second time.
+                    resolved, _ = _resolve_identifier(target, scopes)
+                    return resolve_nested(resolved, scopes=scopes)
                 case Parenthesis():
                     return resolve_nested(target.value, scopes=scopes)
                 case AttributeSet():
